@@ -45,6 +45,8 @@ type Case struct {
 	Idx    int             `json:"idx"`
 	Name   string          `json:"name"`
 	Params json.RawMessage `json:"params"`
+	// Race asks for the case to run in the -race build of the worker.
+	Race bool `json:"race,omitempty"`
 }
 
 // Result is what running one case produced.
@@ -299,10 +301,31 @@ func CrashSig(op, frame, msg string) string {
 	return fmt.Sprintf("crash|%s|%s|%s", op, frame, NormalizeMsg(msg))
 }
 
+var noteFile *os.File
+
+// Note records what the worker is about to do, so that a process-fatal
+// crash (a fault inside assembly, the race detector aborting, ...) can
+// be attributed to the exact sub-case. It costs one pwrite.
+func Note(format string, a ...interface{}) {
+	if noteFile == nil {
+		return
+	}
+	s := fmt.Sprintf(format, a...)
+	if len(s) > 1000 {
+		s = s[:1000]
+	}
+	b := make([]byte, 1024)
+	copy(b, s)
+	for i := len(s); i < 1024; i++ {
+		b[i] = ' '
+	}
+	noteFile.WriteAt(b, 0)
+}
+
 // WorkerMain is the entry point of `vw worker`.
 func WorkerMain(ck Check, caseFile, journal string, from int) {
 	o := ck.Opts()
-	if o.ASLimitMiB > 0 && !o.Race {
+	if o.ASLimitMiB > 0 && !o.Race && os.Getenv("VW_IS_RACE") == "" {
 		lim := uint64(o.ASLimitMiB) << 20
 		_ = syscall.Setrlimit(syscall.RLIMIT_AS, &syscall.Rlimit{Cur: lim, Max: lim})
 	}
@@ -325,10 +348,12 @@ func WorkerMain(ck Check, caseFile, journal string, from int) {
 		fmt.Fprintln(os.Stderr, "worker: ", err)
 		os.Exit(3)
 	}
+	noteFile, _ = os.OpenFile(journal+".note", os.O_RDWR|os.O_CREATE|os.O_TRUNC, 0644)
 	for _, c := range cases {
 		if c.Idx < from {
 			continue
 		}
+		Note("")
 		fmt.Fprintf(jf, "B %d\n", c.Idx)
 		var res Result
 		pi := Protect(func() { res = ck.Run(c) })
@@ -356,6 +381,7 @@ func trunc(s string, n int) string {
 
 type batch struct {
 	cases []Case
+	race  bool
 }
 
 // RunAll executes all cases in child processes and returns results in
@@ -377,12 +403,33 @@ func RunAll(ck Check, cases []Case, exe string) []Result {
 		}
 	}
 	var batches []batch
-	for i := 0; i < len(cases); i += bs {
-		j := i + bs
-		if j > len(cases) {
-			j = len(cases)
+	var plain, race []Case
+	for _, c := range cases {
+		if c.Race {
+			race = append(race, c)
+		} else {
+			plain = append(plain, c)
 		}
-		batches = append(batches, batch{cases[i:j]})
+	}
+	for i := 0; i < len(plain); i += bs {
+		j := i + bs
+		if j > len(plain) {
+			j = len(plain)
+		}
+		batches = append(batches, batch{plain[i:j], false})
+	}
+	// Race workers are expensive to start (table initialisation
+	// under the race detector): one long-lived worker per core.
+	rbs := (len(race) + nproc - 1) / nproc
+	if rbs < 1 {
+		rbs = 1
+	}
+	for i := 0; i < len(race); i += rbs {
+		j := i + rbs
+		if j > len(race) {
+			j = len(race)
+		}
+		batches = append(batches, batch{race[i:j], true})
 	}
 	results := make([]Result, len(cases))
 	scratch, err := os.MkdirTemp("", "vw-"+ck.ID()+"-")
@@ -418,18 +465,34 @@ func runBatch(ck Check, o WorkerOpts, exe, scratch string, bi int, b batch, resu
 		panic(err)
 	}
 	done := map[int]bool{}
-	from := b.cases[0].Idx
-	last := b.cases[len(b.cases)-1].Idx
+	// Positions within the batch (case indices need not be contiguous).
+	pos := 0
 	attempts := 0
-	for from <= last {
+	idxPos := map[int]int{}
+	for i, c := range b.cases {
+		idxPos[c.Idx] = i
+	}
+	for pos < len(b.cases) {
+		from := b.cases[pos].Idx
 		attempts++
 		outFile := filepath.Join(scratch, fmt.Sprintf("b%d.out.%d", bi, attempts))
 		of, _ := os.Create(outFile)
-		cmd := exec.Command(exe, "worker", ck.ID(), caseFile, journal, strconv.Itoa(from))
-		cmd.Stdout = of
-		cmd.Stderr = of
+		wexe := exe
+		cmd := exec.Command(wexe, "worker", ck.ID(), caseFile, journal, strconv.Itoa(from))
 		cmd.Env = append(os.Environ(), "GOTRACEBACK=all")
 		cmd.Env = append(cmd.Env, o.Env...)
+		if b.race {
+			rexe := os.Getenv("VW_RACE_EXE")
+			if rexe == "" {
+				panic("VW_RACE_EXE not set but a case asks for the race build")
+			}
+			cmd = exec.Command(rexe, "worker", ck.ID(), caseFile, journal, strconv.Itoa(from))
+			cmd.Env = append(os.Environ(), "GOTRACEBACK=all", "VW_IS_RACE=1",
+				"GORACE=halt_on_error=0 history_size=3 log_path="+filepath.Join(scratch, fmt.Sprintf("race-b%d", bi)))
+			cmd.Env = append(cmd.Env, o.Env...)
+		}
+		cmd.Stdout = of
+		cmd.Stderr = of
 		wall := o.WallSeconds
 		if wall <= 0 {
 			wall = 900
@@ -489,6 +552,11 @@ func runBatch(ck Check, o WorkerOpts, exe, scratch string, bi int, b batch, resu
 		// The worker died (or never started the remaining cases).
 		ob, _ := os.ReadFile(outFile)
 		out := string(ob)
+		if nb, err := os.ReadFile(journal + ".note"); err == nil {
+			if note := strings.TrimSpace(string(nb)); note != "" {
+				out = "last note before death: " + note + "\n" + out
+			}
+		}
 		if inflight >= 0 && !done[inflight] {
 			r := Result{Idx: inflight, Crashed: true}
 			msg, frame := parseCrash(out)
@@ -514,7 +582,6 @@ func runBatch(ck Check, o WorkerOpts, exe, scratch string, bi int, b batch, resu
 			}
 			results[inflight] = r
 			done[inflight] = true
-			from = inflight + 1
 		} else {
 			// Died between cases or before starting: find first not done.
 			nf := -1
@@ -535,17 +602,15 @@ func runBatch(ck Check, o WorkerOpts, exe, scratch string, bi int, b batch, resu
 				}
 				return
 			}
-			from = nf
-			if werr != nil && inflight == -1 && !strings.Contains(out, "B ") {
+			if werr != nil && inflight == -1 {
 				// Possibly a start-up failure; mark one case to avoid spinning.
 				results[nf] = Result{Idx: nf, Verdict: Inconclusive, Detail: fmt.Sprintf("worker failed before the case (%v): %s", werr, tail(out, 800))}
 				done[nf] = true
-				from = nf + 1
 			}
 		}
 		// Skip cases already done.
-		for from <= last && done[from] {
-			from++
+		for pos < len(b.cases) && done[b.cases[pos].Idx] {
+			pos++
 		}
 	}
 }
@@ -719,13 +784,16 @@ func Finish(ck Check, tier string, seed int64, cases []Case, results []Result, s
 			h := sha256.Sum256(b)
 			p := filepath.Join(replayDir, fmt.Sprintf("%s-%s.json", id, hex.EncodeToString(h[:6])))
 			os.WriteFile(p, b, 0644)
-			key := r.Sig
-			if !printed[key] || len(printed) < 20 {
-				if !printed[key] {
-					fmt.Printf("VIOLATION property=%s replay=%s\n", id, p)
-					fmt.Printf("  sig=%s\n  case=%s\n  %s\n", r.Sig, c.Name, indent(trunc(r.Detail, 1500)))
+			all := append([]SubViolation{{r.Sig, r.Detail}}, r.More...)
+			for _, v := range all {
+				if matchFinding(findings, id, v.Sig) != nil || printed[v.Sig] {
+					continue
 				}
-				printed[key] = true
+				printed[v.Sig] = true
+				if len(printed) <= 25 {
+					fmt.Printf("VIOLATION property=%s replay=%s\n", id, p)
+					fmt.Printf("  sig=%s\n  case=%s\n  %s\n", v.Sig, c.Name, indent(trunc(v.Detail, 1500)))
+				}
 			}
 		}
 		fmt.Printf("%s: %d violating case(s), %d distinct signature(s)\n", id, len(sum.Violations), len(printed))
@@ -857,4 +925,15 @@ func max(a, b int) int {
 		return a
 	}
 	return b
+}
+
+// RaceLogPath returns the race detector log of this process (GORACE
+// log_path=<prefix> produces <prefix>.<pid>), or "".
+func RaceLogPath() string {
+	for _, f := range strings.Fields(os.Getenv("GORACE")) {
+		if strings.HasPrefix(f, "log_path=") {
+			return fmt.Sprintf("%s.%d", strings.TrimPrefix(f, "log_path="), os.Getpid())
+		}
+	}
+	return ""
 }
